@@ -25,6 +25,7 @@ type specEnv struct {
 	inSpec  bool           // inside a spec function body: heap reads go through formals
 	fvs     map[string]Val // captured variables of a closure: name -> address of its cell (read in env.st)
 	visRange *ssa.Range    // in a loop invariant of a map-range loop: the iterator whose visited set visited(k) names
+	atEntry  bool          // evaluating a precondition that is being ASSUMED at function entry (see EQuant)
 }
 
 type specSig struct {
@@ -232,7 +233,13 @@ func (env *specEnv) eval(x Expr) Val {
 			tv := c.eval(tr)
 			pats = append(pats, tv.L...)
 		}
-		e.rangeFacts = e.rangeFacts[:nFacts] // facts about terms containing the bound variable cannot be asserted globally
+		// facts about terms containing the bound variable cannot be asserted globally. Where a universally
+		// quantified precondition is being assumed at function entry they are facts about the entry state
+		// (ranges; a stored reference is nil or an object that already exists) and are assumed with it.
+		if inner := e.rangeFacts[nFacts:]; env.atEntry && n.Forall && len(inner) > 0 && len(body.L) == 1 {
+			body = Val{T: body.T, L: []string{sand(append([]string{body.L[0]}, inner...)...)}}
+		}
+		e.rangeFacts = e.rangeFacts[:nFacts]
 		rng := e.sorter.rangeOf(quoteSym(vn), t)
 		if _, isPtr := t.Underlying().(*types.Pointer); isPtr {
 			rng = ""
@@ -538,7 +545,7 @@ func (env *specEnv) index(n *EIndex) Val {
 	switch t := s.T.Underlying().(type) {
 	case *types.Slice:
 		i := env.asIdx(env.eval(n.I))
-		return env.withState(env.st, func() Val { return e.sliceElem(s, i) })
+		return env.closedAtEntry(env.withState(env.st, func() Val { return e.sliceElem(s, i) }))
 	case *types.Basic:
 		if isStringType(s.T) {
 			i := env.asIdx(env.eval(n.I))
@@ -787,6 +794,18 @@ func (env *specEnv) call(n *ECall) Val {
 		v := env.eval(n.Args[0])
 		a := env.withState(env.old, func() Val { return Val{L: []string{e.heapArr("$alloc", "(Array Int Bool)")}} })
 		return Val{T: tBool, L: []string{"(select " + a.L[0] + " " + v.L[0] + ")"}}
+	case "allocatedNow":
+		// allocatedNow(x): x exists in the state the clause is evaluated in (allocated(x): at function entry)
+		v := env.eval(n.Args[0])
+		return env.withState(env.st, func() Val {
+			return Val{T: tBool, L: []string{"(select " + e.heapArr("$alloc", "(Array Int Bool)") + " " + v.L[0] + ")"}}
+		})
+	case "closed":
+		// closed(c): channel c has been closed (the bit close(c) sets; a second close would panic)
+		v := env.eval(n.Args[0])
+		return env.withState(env.st, func() Val {
+			return Val{T: tBool, L: []string{"(select " + e.heapArr("C/closed", "(Array Int Bool)") + " " + v.L[0] + ")"}}
+		})
 	case "disjoint":
 		// the two slices share no backing array (nil slices are disjoint from everything)
 		a, b := env.eval(n.Args[0]), env.eval(n.Args[1])
@@ -1106,7 +1125,7 @@ func (env *specEnv) closedAtEntry(v Val) Val {
 		return v
 	}
 	switch typeUnder(v.T).(type) {
-	case *types.Pointer, *types.Slice, *types.Map:
+	case *types.Pointer, *types.Slice, *types.Map, *types.Chan:
 		e.rangeFacts = append(e.rangeFacts, sor(seq(v.L[0], "0"), "(select "+quoteSym("$alloc")+" "+v.L[0]+")"))
 		if _, isSlice := typeUnder(v.T).(*types.Slice); isSlice && len(v.L) == 4 {
 			// a slice with elements has a backing array
